@@ -575,8 +575,25 @@ fn check_lattice_program(ctx: &mut Ctx, name: &str, p: &Program) {
     let c = if declared_canonical { p.clone() } else { canon(p) };
     match ContractClass::new(&c, ContractEntryPoints::default(), None, Default::default()) {
         Err(e) => {
-            ctx.count("felt_unserializable", 1);
-            ctx.note(format!("felt serialization refused: {e}"));
+            // the felt format has a documented domain: generic ids of at most 31 bytes (longer ones only from a fixed
+            // list), values below the field prime in magnitude; inside it, serialization must not be refused
+            let prime: BigInt = BigInt::from(2).pow(251) + BigInt::from(17) * BigInt::from(2).pow(192) + 1;
+            fn values_ok(args: &[GenericArg], prime: &BigInt) -> bool {
+                args.iter().all(|a| match a {
+                    GenericArg::Value(v) => &BigInt::from(v.magnitude().clone()) < prime,
+                    _ => true,
+                })
+            }
+            let ids_ok = c.type_declarations.iter().all(|d| d.long_id.generic_id.0.len() <= 31 && values_ok(&d.long_id.generic_args, &prime))
+                && c.libfunc_declarations.iter().all(|d| d.long_id.generic_id.0.len() <= 31 && values_ok(&d.long_id.generic_args, &prime));
+            // (only the ladders are guaranteed to use declared ids throughout)
+            let all_numeric = name.starts_with("ladder:");
+            if ids_ok && all_numeric {
+                ctx.violation("lattice:felt:serialization-refused-within-domain", format!("a program inside the domain of the felt format (generic ids <= 31 bytes, values below P) is refused: {e}"), case("felt"));
+            } else {
+                ctx.count("felt_unserializable", 1);
+                ctx.note(format!("felt serialization refused ({name}; ids_ok={ids_ok} numeric={all_numeric}): {e}"));
+            }
         }
         Ok(class) => match class.extract_sierra_program(false) {
             Err(e) => ctx.violation("lattice:felt:deserialize-fails", format!("deserialization of a serialized program fails: {e}"), case("felt")),
